@@ -285,3 +285,67 @@ func init() {
 		c.Check(ok, "accepts-all-produced", pname+": upper bound on the accepted length >= largest length nameLen produces", st[0].Pos(), fmt.Sprintf("max produced %d", max), why)
 	})
 }
+
+func init() {
+	// F11 (genuine defect, fixed in /repo 3ac2ec8): recordBytesRead set st.stream = nil after an over-read
+	// ("panic if we try to read again"), but the same *stream writes the response, closes the read side and
+	// resets the stream, all of which dereference st.stream unconditionally: one malformed frame crashed the
+	// server. Contradiction rule: a field that many functions dereference without a nil test is never set to nil,
+	// and is written only where the stream object is built.
+	ExtraClause("C35", "Also: http3.stream.stream (dereferenced without a nil test by the read, write, close and reset paths) is written only by the two constructors and never assigned nil.")
+	RegisterExtra("C35", func(c *Ctx) {
+		const field = "internal/http3.stream.stream"
+		c.Writers(field, "internal/http3.newConnStream", "internal/http3.newStream")
+		n, bad := 0, ""
+		var pos token.Pos
+		derefs := 0
+		fv := c.P.Field(field)
+		for _, fn := range c.P.All {
+			for _, b := range fn.Blocks {
+				for _, in := range b.Instrs {
+					switch x := in.(type) {
+					case *ssa.Store:
+						if FieldOfAddr(x.Addr) != fv || fv == nil {
+							continue
+						}
+						n++
+						if k, isK := x.Val.(*ssa.Const); isK && k.Value == nil {
+							bad = FnName(fn) + " assigns nil"
+							pos = in.Pos()
+						}
+					case *ssa.UnOp:
+						if x.Op == token.MUL && fv != nil && FieldOfAddr(x.X) == fv {
+							derefs++
+						}
+					}
+				}
+			}
+		}
+		if fv == nil || n == 0 || derefs < 10 {
+			c.Undecided("never-nil", field+": never assigned nil", fmt.Sprintf("field found=%v, %d store(s), %d load(s)", fv != nil, n, derefs))
+			return
+		}
+		c.Check(bad == "", "never-nil", field+": never assigned nil", pos, fmt.Sprintf("%d store(s), %d unconditional load(s)", n, derefs), bad+": every later write, CloseRead or Reset on this stream dereferences nil (a peer can crash the server with one malformed frame)")
+	})
+}
+
+func init() {
+	// F12 (genuine defect, fixed in /repo 7f5b4f7): Decoder.Write cleared firstField after every representation,
+	// so the second of the two dynamic table size updates the Encoder emits after SetMaxDynamicTableSize was
+	// called twice (smallest size, then final size: RFC 7541 section 4.2) was rejected whenever the table was
+	// still non-empty. A size update must not end "the beginning of the block".
+	ExtraClause("C01", "Also: the Decoder clears its start-of-block flag only for a header field representation, never after a dynamic table size update (the Encoder may emit two updates in a row).")
+	RegisterExtra("C01", func(c *Ctx) {
+		const w = "(*http2/hpack.Decoder).Write"
+		clear := Stores("http2/hpack.Decoder.firstField").StoredIs("false")
+		c.Any(
+			func() { c.Guard(w, clear, "($r.buf[0]&224) != 32") },
+			func() {
+				// or the flag is cleared inside the field parsers only
+				c.Count(w, clear, 0, 0)
+				c.Count("(*http2/hpack.Decoder).parseDynamicTableSizeUpdate", clear, 0, 0)
+				c.Has("(*http2/hpack.Decoder).parseFieldIndexed", clear)
+				c.Has("(*http2/hpack.Decoder).parseFieldLiteral", clear)
+			})
+	})
+}
